@@ -67,7 +67,8 @@ pub fn run_searches(property: &str, tier: &str, level: &str, searches: Vec<Searc
             budget: s.budget,
             timeout_s: s.timeout_s,
             seed_label: s.label.clone(),
-            deadline: Some(deadline),
+            // fair share of what is left of the wall-clock cap (time a search does not use rolls over to the later ones)
+            deadline: Some(Instant::now() + deadline.saturating_duration_since(Instant::now()) / (searches.len() - si) as u32),
         };
         let t0 = Instant::now();
         let r: BfsResult = bfs(&spec);
